@@ -95,6 +95,9 @@ def check_archive(fname, data, doc, directory, ext, v, case_d):
             # the stored text must reference an image exactly where its html rendering does
             if "text.html" in names:
                 h = z.read("text.html")
+                plain = mmd.convert(doc, ext | mmd.EXT["COMPLETE"], 0)
+                if norm_html(h) != norm_html(plain):
+                    v.append((sig("html-differs-from-plain-html"), "text.html differs from html -f beyond asset paths and the TOC", dict(case_d, got=h.decode("utf-8", "replace")[-600:], plain=plain.decode("utf-8", "replace")[-600:])))
                 n_html = len(re.findall(rb'<img src="assets/', h)); n_md = len(re.findall(rb'!\[[^\]]*\]\(assets/', md)) + sum(1 for _ in re.finditer(rb'^\[[^\]]*\]: assets/', md, re.M))
                 n_img_refdefs = len(re.findall(rb'!\[[^\]]*\]\[', md))
                 if n_html and n_md == 0 and not n_img_refdefs:
